@@ -79,6 +79,8 @@ pub struct Responder {
     /// hand out a different token with every get_peers answer (all of them remain valid)
     pub rotate_tokens: bool,
     pub tokens_issued: Vec<Vec<u8>>,
+    /// make every get_peers answer exactly this long by lengthening the token
+    pub pad_reply_to: Option<usize>,
 }
 
 impl Responder {
@@ -106,6 +108,7 @@ impl Responder {
             duplicate_replies: false,
             rotate_tokens: false,
             tokens_issued: vec![],
+            pad_reply_to: None,
         }
     }
 
@@ -236,7 +239,29 @@ impl Peer for Responder {
                 } else {
                     self.token.clone()
                 };
-                krpc::response(&p.tid, &self.id, Some(&tok), vals, &self.nodes_for(&t, from))
+                let nodes = self.nodes_for(&t, from);
+                let mut reply = krpc::response(&p.tid, &self.id, Some(&tok), vals, &nodes);
+                if let Some(target) = self.pad_reply_to {
+                    let mut tk = tok.clone();
+                    for _ in 0..4 {
+                        if reply.len() == target {
+                            break;
+                        }
+                        if reply.len() < target {
+                            tk.extend(std::iter::repeat(b'+').take(target - reply.len()));
+                        } else {
+                            let over = reply.len() - target;
+                            tk.truncate(tk.len().saturating_sub(over));
+                        }
+                        reply = krpc::response(&p.tid, &self.id, Some(&tk), vals, &nodes);
+                    }
+                    if self.rotate_tokens {
+                        self.tokens_issued.push(tk.clone());
+                    } else {
+                        self.token = tk;
+                    }
+                }
+                reply
             }
             "announce_peer" => {
                 if p.token.as_deref() == Some(self.token.as_slice()) || self.tokens_issued.iter().any(|t| Some(t.as_slice()) == p.token.as_deref()) {
